@@ -148,57 +148,33 @@ theorem matrix_form_eq_chain {π κ δ φ : Type} (p : π) (ek : κ) (ed : δ) (
 
 /-! ## declared and used callbacks -/
 
-/-- the full statement: a method's `embed()` mentions only callbacks its traits declare -/
-def UsesOnlyDeclared : Prop := ∀ m : Meth, ∀ c ∈ callbacksMentioned m, c ∈ declaredNeeds m
+/-- **A method's `embed()` mentions only callbacks its traits declare** (member mentions `kernel`, `kernel_distance` →
+    kernel; `distance`, `plain_distance` → distance; `features`, `features.dimension()` → features), over the tables
+    regenerated from methods/*.hpp and defines/methods.hpp.  Over-declaration (SPE declares features and never uses
+    them) is allowed.  (Before repository commit 4cb36d9 this was false for Manifold Sculpting: finding F-MS-TRAITS,
+    witness kept in corpus/C14/f-ms-traits.case.) -/
+theorem uses_only_declared : ∀ m : Meth, ∀ c ∈ callbacksMentioned m, c ∈ declaredNeeds m := by
+  intro m; cases m <;> decide
 
-/-- **Finding F-MS-TRAITS.**  False of the code as it stands: Manifold Sculpting declares `RequiresFeatures` but hands
-    `plain_distance` to `find_neighbors_with` and `distance` to `manifold_sculpting_embed`. -/
-theorem uses_only_declared_refuted : ¬ UsesOnlyDeclared := by
-  intro h
-  exact absurd (h .ManifoldSculpting .distance (by decide)) (by decide)
-
-/-- every other method mentions only what it declares (over-declaration, e.g. SPE's features, is allowed) -/
-theorem uses_only_declared_partial :
-    ∀ m : Meth, m ≠ .ManifoldSculpting → ∀ c ∈ callbacksMentioned m, c ∈ declaredNeeds m := by
-  intro m hm
-  cases m <;> first | exact absurd rfl hm | decide
-
-/-- the full statement: supplying exactly (at least) the declared callbacks is sufficient - the front end never
-    answers `unsupported_method_error` -/
-def DeclaredSuffices : Prop :=
-  ∀ (r : Request) (m : Meth), (r.kws.map Param.kw).Nodup → WellTyped r → (⟨.method, .method m⟩ : Param) ∈ r.kws →
-    DeclaredSupplied m r → (frontEnd r).outcome ≠ .threw (errT .unsupported_method_error)
-
-/-- witness of F-MS-TRAITS at the level of the front end: Manifold Sculpting on 10 samples with the features
-    callback only (all it declares) is answered by `unsupported_method_error` (the dummy distance callback throws) -/
-def msWitness : Request := ⟨10, [⟨.method, .method .ManifoldSculpting⟩], false, false, true, false⟩
-
-theorem declared_suffices_refuted : ¬ DeclaredSuffices := by
-  intro h
-  have hw : (frontEnd msWitness).outcome = .threw (errT .unsupported_method_error) := by decide +kernel
-  exact h msWitness .ManifoldSculpting (by decide) (by intro p hp; simp [msWitness] at hp; subst hp; rfl)
-    (by simp [msWitness]) (by simp [DeclaredSupplied, Meth.traits, msWitness]) hw
-
-/-- for every method that mentions only what it declares (all but Manifold Sculpting, `uses_only_declared_partial`),
-    for all N, all well-typed values and both harness modes: with the declared callbacks supplied the front end never
-    answers `unsupported_method_error` -/
-theorem declared_suffices_partial (r : Request) (m : Meth) (hn : (r.kws.map Param.kw).Nodup) (ht : WellTyped r)
-    (hm : (⟨.method, .method m⟩ : Param) ∈ r.kws) (hs : DeclaredSupplied m r)
-    (hu : ∀ c ∈ callbacksMentioned m, c ∈ declaredNeeds m) :
+/-- **Supplying the declared callbacks is sufficient.**  For every method, every N, all well-typed values, both harness
+    modes: with the callbacks the method declares to need supplied (the others may be dummies) the front end never
+    answers `unsupported_method_error` - neither from the `needs_*` checks nor from a dummy callback inside `embed()`. -/
+theorem declared_suffices (r : Request) (m : Meth) (hn : (r.kws.map Param.kw).Nodup) (ht : WellTyped r)
+    (hm : (⟨.method, .method m⟩ : Param) ∈ r.kws) (hs : DeclaredSupplied m r) :
     (frontEnd r).outcome ≠ .threw (errT .unsupported_method_error) := by
-  have htyped := merged_typed r ht ⟨_, hm, rfl⟩
+  have htyped := merged_typed r (wellTyped_defaults r ht) ⟨m, lookup_method r hn m hm⟩
   have hmeth : (typedOf (merged r).pmap).meth .method = m := by
-    have h := lookup_merged_explicit r hn _ hm
+    have h := lookup_method r hn m hm
     simp [typedOf, h]
   obtain ⟨-, -, h3, h4⟩ := verdict m r (typedOf (merged r).pmap) (merged r) (typedOf_get (merged r) htyped) hmeth
   have hall : ∀ c ∈ callbacksMentioned m, r.has c = true := by
     intro c hc
-    have hd := hu c hc
+    have hd := uses_only_declared m c hc
     simp only [declaredNeeds, List.mem_filter] at hd
     obtain ⟨hs1, hs2, hs3⟩ := hs
     cases c <;> simp only [Traits.needs] at hd <;> simp [Request.has, hs1, hs2, hs3, hd.2]
   have h3 := h3 hs hall
-  rw [frontEnd_eq r hn]
+  rw [frontEnd_eq r hn (wellTyped_defaults r ht)]
   generalize afterMerge r (merged r) = x at h3 h4 ⊢
   obtain ⟨a, c⟩ := x
   cases a with
@@ -214,5 +190,32 @@ theorem declared_suffices_partial (r : Request) (m : Meth) (hn : (r.kws.map Para
       · revert hcontra; decide
       · revert hcontra; decide
       · exact h3 rfl
+
+/-- non-vacuity: Manifold Sculpting with exactly its declared callbacks (distance, features) on 10 samples -/
+example : (frontEnd ⟨10, [⟨.method, .method .ManifoldSculpting⟩], false, true, true, false⟩).outcome = .ok := by
+  decide +kernel
+
+/-- conversely, a missing declared callback is always answered by `unsupported_method_error` before anything is
+    computed (statement shared with C14: `C14.callbacks_before_validate`) -/
+theorem missing_declared_rejected (r : Request) (m : Meth) (hn : (r.kws.map Param.kw).Nodup) (ht : WellTyped r)
+    (hm : (⟨.method, .method m⟩ : Param) ∈ r.kws) (h0 : r.n ≠ 0)
+    (hd : 1 ≤ numOf (merged r) .target_dimension ∧ numOf (merged r) .target_dimension < r.n)
+    (hc : lookup .cancel_function (merged r).pmap ≠ some (.cancelFn (some true)))
+    (hs : ¬ DeclaredSupplied m r) :
+    frontEnd r = ⟨.threw (errT .unsupported_method_error), Counts.zero⟩ := by
+  have htyped := merged_typed r (wellTyped_defaults r ht) ⟨m, lookup_method r hn m hm⟩
+  have hnum := typedOf_num (merged r) htyped .target_dimension
+  simp only [TypedVals.num, Kw.ty] at hnum
+  rw [← hnum] at hd
+  have hm' : (typedOf (merged r).pmap).meth .method = m := by simp [typedOf, lookup_method r hn m hm]
+  have hc' : (typedOf (merged r).pmap).cancel .cancel_function ≠ some true := by
+    obtain ⟨v, hv, hty⟩ := htyped .cancel_function
+    cases v <;> simp [Val.ty, Kw.ty] at hty
+    rename_i c
+    simp only [typedOf, hv]
+    intro hcc; subst hcc; exact hc hv
+  rw [← hm'] at hs
+  rw [frontEnd_eq r hn (wellTyped_defaults r ht),
+    prefix_callbacks r _ _ (typedOf_get (merged r) htyped) h0 hd hc' hs]; decide
 
 end TapkeeVerif.C13
